@@ -32,6 +32,9 @@ EMBED = [(1.0, (0.0, 0.0, 0.0)), (2.0 ** -17, (0.0, 0.0, 0.0)), (1.0, (10.0, 10.
          # separations of 1e-8 .. 1e-9 of the coordinate magnitude (still exact: multiples of 2^-17 / 2^-20 below 2^12): differences that
          # a "clean-up" of small components would zero although doubles resolve them
          (2.0 ** -17, (1024.0, -2048.0, 1536.0)), (2.0 ** -20, (4096.0, 4096.0, -4096.0))]
+# length scales far from one: sub-micrometre triangles (the scale of real SimuCell3D meshes: edges of 4e-7 .. 2e-6 m, squared lengths of
+# 1e-13 and below), much smaller still, and very large -- an absolute tolerance or floor in the kernel shows only there
+SCALES = [(2.0 ** -22, (0.0, 0.0, 0.0)), (2.0 ** -40, (0.0, 0.0, 0.0)), (2.0 ** 20, (0.0, 0.0, 0.0)), (2.0 ** -24, (2.0 ** -12, -2.0 ** -13, 2.0 ** -12))]
 
 
 def thin_verdict(c, e, L, h, o):
@@ -89,9 +92,10 @@ def run(tier, seed, replay=None):
         # every state in the identity placement; the other embeddings / rotations rotate through the list
         picks = [(EMBED[0], rots[0])]
         if tier == "thorough":
-            picks += [(e, rnd.choice(rots)) for e in EMBED[1:]]
+            picks += [(e, rnd.choice(rots)) for e in EMBED[1:]] + [(e, rnd.choice(rots)) for e in SCALES]
         else:
-            picks += [(rnd.choice(EMBED[1:6]), rnd.choice(rots)), (rnd.choice(EMBED[2:6]), rots[0]), (EMBED[6 + len(cases) % 2], rnd.choice(rots))]
+            picks += [(rnd.choice(EMBED[1:6]), rnd.choice(rots)), (rnd.choice(EMBED[2:6]), rots[0]), (EMBED[6 + len(cases) % 2], rnd.choice(rots)),
+                      (SCALES[(len(cases) // 5) % 4], rnd.choice(rots))]
         for (sc, off), g in picks:
             cases.append({"k": len(cases) + 1, "p": rot(g, list(st["p"])), "a": rot(g, list(st["a"])), "b": rot(g, list(st["b"])),
                           "c": rot(g, list(st["c"])), "scale": sc, "off": list(off)})
